@@ -40,10 +40,13 @@ REQUIRED_CLASSES = {
 }
 
 
+FORMS = ("indices", "indices", "indices", "blocks", "blocks", "eigvecs")
+
+
 def strategy(tier):
     if tier == "thorough":
-        return problems(tier, hermitian=True, max_N=10, max_block_size=4)
-    return problems(tier, hermitian=True)
+        return problems(tier, hermitian=True, max_N=10, max_block_size=4, forms=FORMS)
+    return problems(tier, hermitian=True, forms=FORMS)
 
 
 def check_case(case, enforce_all=False):
